@@ -642,6 +642,7 @@ package graphql
 //@   pure
 
 //@ func PlanCache.lookup
+//@   guarded[C07] list., M|string|*list.Element by &c.mu
 //@   props C06 C07
 //@   nosafety
 //@   requires c != nil && !held(&c.mu)
@@ -654,6 +655,7 @@ package graphql
 //@   ensures old(has(c.entries, key)) && old(as(c.entries[key].Value, "*graphql.planCacheItem").e.schema) != schema ==> !result1 && !has(c.entries, key)
 
 //@ func PlanCache.store
+//@   guarded[C07] list., M|string|*list.Element by &c.mu
 //@   props C06 C07
 //@   nosafety
 //@   assigns class:list., class:atomic., class:M|string|*list.Element, class:graphql.planCacheEntry, class:graphql.planCacheItem
@@ -671,6 +673,7 @@ package graphql
 //@   loop 1 invariant calls("Remove") == calls("delete")
 
 //@ func PlanCache.Reset
+//@   guarded[C07] list., M|string|*list.Element by &c.mu
 //@   props C06 C07
 //@   nosafety
 //@   requires c == nil || !held(&c.mu)
